@@ -550,6 +550,68 @@ func TestVerifC04(t *testing.T) {
 		return Curve_P256
 	}
 
+	// ------------------------------------------------------------------ box 0: one TBS object, several issuances
+	// A TBSCertificate is a caller-owned template: nothing says it may be signed only once. Every sequence of up to three
+	// issuances of the SAME object by signers drawn from {unconstrained CA, constrained CA it conforms to, constrained CA it
+	// does not conform to}, through Sign and SignWith, is judged issuance by issuance with the full post-conditions (issuer
+	// names the signer of THIS issuance, verifies against a pool holding only that signer).
+	{
+		st := c04NewStats()
+		var reuseSeq, reuseIssued int64
+		for _, cv := range versions {
+			for _, cu := range curves {
+				cas := []*c04CA{
+					x.mkCA(st, cv, cu, nil, nil, nil),
+					x.mkCA(st, cv, cu, []string{"a", "b"}, nil, nil),
+					x.mkCA(st, cv, cu, []string{"z"}, nil, nil), // refuses the template below (group a is outside)
+				}
+				for _, tv := range versions {
+					for _, with := range []bool{false, true} {
+						var seqs [][]int
+						for a := 0; a < 3; a++ {
+							seqs = append(seqs, []int{a})
+							for b := 0; b < 3; b++ {
+								seqs = append(seqs, []int{a, b})
+								for d := 0; d < 3; d++ {
+									seqs = append(seqs, []int{a, b, d})
+								}
+							}
+						}
+						for _, seq := range seqs {
+							s := &c04Spec{ver: tv, curve: cu, groups: []string{"a"}, nets: c04P("10.1.0.5/24"), nb: 100, na: 200}
+							tb := s.tbs("leaf", x.leafPub[cu])
+							reuseSeq++
+							for k, ci := range seq {
+								ca := cas[ci]
+								how := "Sign"
+								if with {
+									how = "SignWith"
+								}
+								how += fmt.Sprintf(" (issuance %d of one TBS object)", k+1)
+								det := func() map[string]any {
+									return map[string]any{"signer": ca.spec.desc(), "signers_of_this_TBS_object_so_far": fmt.Sprint(seq[:k+1])}
+								}
+								crt, _ := x.attempt(st, how, s, ca, func() (Certificate, error) {
+									if with {
+										return tb.SignWith(ca.cert, cu, ca.key.lambda())
+									}
+									return tb.Sign(ca.cert, cu, ca.key.raw)
+								}, det)
+								if crt != nil {
+									reuseIssued++
+								}
+							}
+						}
+					}
+				}
+			}
+		}
+		x.merge(st)
+		c.Set("tbs_object_reuse_sequences", reuseSeq)
+		c.Set("tbs_object_reuse_issued", reuseIssued)
+		c.Require(reuseIssued > reuseSeq, "TBS reuse box: only %d certificates issued over %d sequences", reuseIssued, reuseSeq)
+	}
+
 	// ------------------------------------------------------------------ box 2 + 3 + 4 first (small), then the lattice
 	{
 		st := c04NewStats()
